@@ -23,7 +23,7 @@ PROPS = {
                                      "transaction; a whole call runs while the other call's commit write has been issued and has not reached storage), with and without the object cache, both configurations. Other interleavings are not explored"}],
         "scope": "partial (the single-call obligations the serialisation argument rests on; schedules themselves are outside this family): in the transactional tail of Directory::publish the batch - prepared against the "
                  "epoch read at the start of the call - is handed to batch_insert_nodes only after the epoch record was read AGAIN, bypassing the cache, by a call whose transaction had begun, and showed that same epoch "
-                 "(permission epoch_confirmed, granted only from such a read); otherwise the transaction is rolled back and the call fails; a refused begin_transaction fails the call before any write; an epoch other "
+                 "(permission epoch_confirmed, granted only from such a read); otherwise the transaction is rolled back and the call fails; a refused begin_transaction fails the call before any write AND without rolling back (a call may roll back only the transaction it began itself - the log is shared by all clones); an epoch other "
                  "than the current one is announced only after an accepted commit; StorageManager::commit_transaction ends the transaction - so that another one may begin - only once the database write of its records "
                  "has returned (accepted or rejected) or it is certain that none is attempted (permission write_attempt_over, granted by the write's return; C12-D13); a clone of a storage manager is a second handle on the SAME transaction log, cache and database (identity model: new = fresh, clone = same), so the transaction flag excludes publishes on clones. BOUNDED (never counted as proved): the overtaking interleaving on clones - each call fails without effect or takes effect as a "
                  "whole, successful calls get distinct consecutive epochs, every returned (epoch, hash) pair is what the audit chain verifies against. Not decided: that begin_transaction is an atomic test-and-set "
